@@ -45,6 +45,8 @@ F_S = Field.for_types("s", [str, None], "text or null")
 F_N = Field.for_types("n", [int, float], "non-negative number", extraValidator=_nonneg)
 MT = MessageType("c14:msg", [F_I, F_S, F_N], "typed message")
 AT = ActionType("c14:act", [F_I, F_S], [F_N], "typed action")
+# the field name L1 uses as the undeclared extra IS declared - by a different type (what one type declares must not widen another)
+MT_OTHER = MessageType("c14:other", [Field.for_types("undeclared", [int], "declared by another type only")], "another typed message")
 
 SERIALIZERS = {
     "message": (MT._serializer, {"message_type": "c14:msg"}, ["i", "s", "n"], False),
